@@ -721,6 +721,42 @@ def stage_field_sweep(ctx: Ctx):
                                   {'src': two.src, 'node': cls.__name__, 'field': field, 'formatted_tree': got[0], 'pure_ast': got[1]})
 
 
+PRIM_LEAVES = [None, 0, 1, 0.0, 1.5, 0j, 2j, '', 'a', '0', b'', b'a', b'0', False, True, 10 ** 30, 'é', 'None']
+
+
+def stage_primitive_leaves(ctx: Ctx):
+    """deterministic: every pair (pattern value, target value) of primitive leaves - None, the falsy and truthy values of every constant type - as Constant.value: pattern given as MConstant,
+    as a Constant AST and inside a whole statement AST, target formatted and pure AST, match() and search(): a match exactly when type and value are the same (0 / False / 0.0 / '' / None all differ)"""
+    import fst
+    from fst.match import MConstant, MAssign, MName, M
+    same = lambda p, t: type(p) is type(t) and p == t and repr(p) == repr(t)
+    for p in PRIM_LEAVES:
+        for t in PRIM_LEAVES:
+            src = f'x = {t!r}'
+            root = fst.FST(src, 'exec')
+            tgt = root.body[0].value
+            if not isinstance(tgt.a, ast.Constant):
+                continue          # -0.0 parses as a UnaryOp
+            want = same(p, tgt.a.value)
+            got = {}
+            try:
+                got['MConstant/fst'] = tgt.match(MConstant(value=p)) is not None
+                got['MConstant/ast'] = MConstant(value=p).match(ast.Constant(value=tgt.a.value)) is not None
+                got['Constant/fst'] = tgt.match(ast.Constant(value=p)) is not None
+                got['M(tag)/fst'] = tgt.match(MConstant(value=M(v=p))) is not None
+                got['stmt/fst'] = root.body[0].match(ast.Assign(targets=[ast.Name(id='x', ctx=ast.Store())], value=ast.Constant(value=p))) is not None
+                got['stmt/ast'] = MAssign(targets=[MName('x')], value=MConstant(value=p)).match(ast.parse(src).body[0]) is not None
+                got['search'] = any(m.matched is tgt for m in root.search(MConstant(value=p)))
+            except Exception as e:
+                ctx.violation(f'prim-leaf-raise|{type(e).__name__}', 'matching a primitive leaf raised', {'pattern_value': repr(p), 'target_src': src, 'error': repr(e)[:200]})
+                continue
+            ctx.tick(('prim-leaf', repr(p), repr(t)), 'prim-leaf:' + ('same' if want else 'differs'))
+            bad = sorted(k for k, v in got.items() if v != want)
+            if bad:
+                ctx.violation(f'prim-leaf|{type(p).__name__}-vs-{type(t).__name__}|{"matches-different" if not want else "rejects-same"}',
+                              'a primitive leaf of a pattern matches a different value (or rejects the same one)', {'pattern_value': repr(p), 'target_src': src, 'expected_match': want, 'wrong': bad})
+
+
 def stage_type_patterns(ctx: Ctx):
     """deterministic: for every node of the field programs and each of its fields, the pattern that asks for the TYPE of what the pure AST holds there (a node class, str / int /
     ... for primitives, a list of them for list fields) gives the same answer - a match - on the formatted tree and on the pure AST"""
@@ -797,6 +833,7 @@ def run(ctx: Ctx):
     run_guarded(ctx, stage_history)
     run_guarded(ctx, stage_field_sweep)
     run_guarded(ctx, stage_type_patterns)
+    run_guarded(ctx, stage_primitive_leaves)
     progs = corpus(ctx.rng, gen=ctx.scale(6, 60))
     run_guarded(ctx, stage_search, progs)
     run_guarded(ctx, stage_search_ctx, progs)
